@@ -342,7 +342,7 @@ def target_cfgs(draw, allow_micro800=True):
         "tmpl_frag": draw(st.one_of(st.integers(1, 600), st.sampled_from([1, 2, 7, 8, 9, 100, 480]))),
         "read_cap": cap,
         "bool_true": draw(st.sampled_from([0x01, 0xFF])),
-        "frag_round": draw(st.sampled_from(["element", "byte"])),
+        "frag_round": draw(st.sampled_from(["element", "byte", "any"])),
         "empty_first_fragment": draw(st.integers(0, 7)) == 0,
         "plc_name": draw(st.sampled_from(["MainController", "P", "", "Line_3_PLC"])),
         "expected_route": b"" if micro else b"\x01\x00",
